@@ -760,6 +760,22 @@ def by_to_bytes(ex, s, recv, r, args, kw, node):
         return to_bytes_signed(ex, s, r, args[0].z, node)
     w = concrete_int(args[0])
     order = concrete_str(args[1]) if len(args) > 1 else None
+    if w is None and order == 'big' and not kw and isinstance(args[0], VInt) and isinstance(r, VInt):
+        # unsigned, symbolic width n: ValueError for n < 0, OverflowError unless 0 <= v < 2**(8n); n bytes (spec fn ube)
+        n, v, out = args[0].z, r.z, []
+        ube = z3.Function('ube', IntS, IntS, BytesS)
+        for s1, neg in ex.branch(s, n < 0, node):
+            if neg:
+                out.append(_raise(s1, 'ValueError'))
+                continue
+            pow2_facts(s1, 8 * n)
+            for s2, ok in ex.branch(s1, z3.And(v >= 0, v < pow2(8 * n)), node):
+                if ok:
+                    s2.assume(z3.Length(ube(n, v)) == n)
+                    out.append((s2, VBytes(ube(n, v))))
+                else:
+                    out.append(_raise(s2, 'OverflowError'))
+        return out
     if w is None or order != 'big' or kw:
         raise Unsupported('to_bytes other than fixed-width unsigned big-endian')
     return enc_uint(ex, s, w, r, node) if w != 1 else enc_uint(ex, s, 1, r, node)
